@@ -316,6 +316,33 @@ def _block(stmt):
 
 
 # ----------------------------------------------------------------------------- UK
+def _absent_via_get(fn, e, truth):
+    """attribute name C if the fact says: X is None, where the local X was bound once to <..>.C.get(key)
+    (the key is absent from the table C)"""
+    x = None
+    if isinstance(e, ast.Compare) and len(e.ops) == 1 and isinstance(e.left, ast.Name) \
+            and isinstance(e.comparators[0], ast.Constant) and e.comparators[0].value is None:
+        if (isinstance(e.ops[0], ast.Is) and truth) or (isinstance(e.ops[0], ast.IsNot) and not truth):
+            x = e.left.id
+    if x is None:
+        return None
+    vals = []
+    for n in iter_scope(fn.node):
+        if isinstance(n, ast.Assign) and any(isinstance(m, ast.Name) and m.id == x for t in n.targets for m in ast.walk(t)):
+            vals.append(n.value if len(n.targets) == 1 and isinstance(n.targets[0], ast.Name) else None)
+        elif isinstance(n, (ast.AugAssign, ast.For, ast.NamedExpr)) and any(
+                isinstance(m, ast.Name) and m.id == x for m in ast.walk(n.target)):
+            vals.append(n.value if isinstance(n, ast.NamedExpr) else None)
+    if len(vals) != 1 or vals[0] is None:
+        return None
+    v = vals[0]
+    if isinstance(v, ast.Call) and isinstance(v.func, ast.Attribute) and v.func.attr == 'get' \
+            and isinstance(v.func.value, ast.Attribute) and (len(v.args) == 1 or (
+                len(v.args) == 2 and isinstance(v.args[1], ast.Constant) and v.args[1].value is None)):
+        return v.func.value.attr
+    return None
+
+
 def uk(model):
     r = RuleResult('UK', 'an unknown name is recorded only in the not-declared branch of '
                    'expand_macro / begin_environment, only outside maths, once (membership test '
@@ -347,6 +374,8 @@ def uk(model):
             any(t is True and isinstance(e, ast.Compare) and isinstance(e.ops[0], ast.NotIn)
                 and isinstance(e.comparators[0], ast.Attribute)
                 and e.comparators[0].attr in ('the_macros', 'the_environments') for e, t in fs)
+        if not undeclared:
+            undeclared = any(_absent_via_get(fn, e, t) in ('the_macros', 'the_environments') for e, t in fs)
         # (b) outside maths: a fact `<param> is False`
         mathpar = [p for p in fn.params if p == 'math' or p.startswith('math')]
         not_math = any(t is False and isinstance(e, ast.Name) and e.id in fn.params for e, t in fs)
@@ -428,7 +457,7 @@ def uk(model):
     else:
         r.fail(pf.node, 'parse() does not reset the list of unknowns', stmt='parse resets unknowns')
     # output: one per line
-    tt = model.func('tex2txt.tex2txt')
+    tt = model.inl().func('tex2txt.tex2txt')
     out_ok = False
     for n in iter_scope(tt.node):
         if isinstance(n, ast.Call) and isinstance(n.func, ast.Attribute) and n.func.attr == 'join' \
